@@ -148,12 +148,13 @@ func init() {
 		components:  map[string][]string{"real": {"pkg/queue (lock-free queue, task pool)"}, "stub": {"goroutine scheduling (sim/vsched)", "sync/atomic call sites are scheduling points (sim/vatomic)", "sync.Pool (deterministic LIFO)"}},
 		assumptions: []string{"preemption only between atomic operations (sequentially consistent atomics); histories of at most 18 operations", "porcupine Unknown (timeout) is counted inconclusive, never reported"},
 		variantsQ:   []string{"default"}, variantsT: []string{"default"}}
-	props["C12"] = &propCfg{engine: "vpool", instrumented: true, level: "exploration", quickS: 15, thoroughS: 300,
-		rule:        "1..4 tasks under the seeded scheduler interleave Get(size) (0, 1, 2^k-1/2^k/2^k+1 up to 4 MiB, random) and Put of slices in every shape (as obtained, tail b[k:], head b[:k], b[:k:k], b[k:k], foreign make()d with odd capacity, zero capacity) on the byte-slice pool and Get/Write/Put on the ring-buffer pool; oracle = ledger of outstanding address ranges (all memory kept alive so addresses are never recycled): len == size, cap >= size, no overlap with any outstanding range, never beyond the capacity of a slice that was put back, canary patterns over the full capacity verified when the holder returns it, rings come back empty and are never held twice; non-trivial = at least two Gets and one Put;" + sig,
-		components:  map[string][]string{"real": {"pkg/pool/byteslice", "pkg/pool/ringbuffer", "pkg/buffer/ring"}, "stub": {"sync.Pool (deterministic LIFO, so that what Get returns is a function of the history, not of P-local caches and GC timing)", "goroutine scheduling (sim/vsched)"}},
-		assumptions: []string{"sizes above 4 MiB (and the > MaxInt32 branch) are not exercised", "the system-level consequence (one connection's data never overwritten through another's buffers) is covered by the content oracles of C01/C02 under connection churn, not by this engine"},
-		wantProbes:  []string{"gets", "puts", "put-resliced", "put-foreign", "ring-gets"},
+	props["C12"] = &propCfg{engine: "vpool", instrumented: true, level: "exploration", quickS: 25, thoroughS: 300,
+		rule:        "1..4 tasks under the seeded scheduler interleave Get(size) (0, 1, 2^k-1/2^k/2^k+1 up to 4 MiB, random) and Put of slices in every shape (as obtained, tail b[k:], head b[:k], b[:k:k], b[k:k], foreign make()d with odd capacity, zero capacity) on the byte-slice pool and Get/Write/Put on the ring-buffer pool; oracle = ledger of outstanding address ranges (all memory kept alive so addresses are never recycled): len == size, cap >= size, no overlap with any outstanding range, never beyond the capacity of a slice that was put back, canary patterns over the full capacity verified when the holder returns it, rings come back empty and are never held twice; non-trivial = at least two Gets and one Put. Second stage (engine vsim, whole engine on the simulated kernel): the slice a handler got from Next/Peek is re-read after every write operation of the same callback (writes draw their buffers from the same pools) and must be unchanged until the next read-type call; buffers passed to Write/Writev/AsyncWrite/AsyncWritev are overwritten by the application as soon as the operation has taken effect and the peer must still receive the original bytes; non-trivial there = at least one such re-check;" + sig,
+		components:  map[string][]string{"real": {"pkg/pool/byteslice", "pkg/pool/ringbuffer", "pkg/buffer/ring", "second stage: the whole engine as for C01/C02 (connection buffers, elastic buffers, event loops)"}, "stub": {"sync.Pool (deterministic LIFO, so that what Get returns is a function of the history, not of P-local caches and GC timing)", "goroutine scheduling (sim/vsched)", "second stage: simulated kernel, peers and application goroutines as for C01/C02"}},
+		assumptions: []string{"sizes above 4 MiB (and the > MaxInt32 branch) are not exercised", "the system-level consequence is checked through the stream content oracles (C01/C02 keys are not repeated here) plus the held-slice re-check; memory that is corrupted without any observable read is not seen"},
+		wantProbes:  []string{"gets", "puts", "put-resliced", "put-foreign", "ring-gets", "held-slice-rechecks"},
 		variantsQ:   []string{"default"}, variantsT: []string{"default"}, crashIsViolation: true}
+	props["C12"].extra = []*propCfg{{engine: "vsim", instrumented: true, variantsQ: []string{"default"}, variantsT: []string{"default", "poll_opt"}}}
 	// C03 has two engines: the whole-engine level (vsim) registered above and
 	// the poller level, run as a second stage by the same check.
 	props["C03"].extra = []*propCfg{{engine: "vpoll", instrumented: true,
